@@ -26,6 +26,15 @@ CLAIMED["C17"] = {
     "design_ref": "DESIGN.md section 3 (C17)",
 }
 
+CLAIMED["C15"] = {
+    "engine": "mcmc_sim",
+    "level": "exploration",
+    "text": "Seeded search over MCMC runs: the real MCMC.run with real operators/adaptors/models/loggers runs under a simulator that owns the operator schedule, the accept/reject coin (uniform, boundary coins placed within 1e-9..1e-3 of the true acceptance probability, always-accept-if-possible, always-reject-unless-certain), the per-transition re-seed and hard-wall numerical faults of the target. After every transition a monitor checks: Hastings ratio == reference log q(x|x')-log q(x'|x) per operator type; density used for the proposal and density carried to the next iteration == target of a freshly rebuilt model; decision == reference MH rule; reject restores every parameter bit-for-bit, accept keeps the proposal; tuning direction; logged rows self-consistent.",
+    "note": "Trusted: the freshly rebuilt model as the definition of the target; numpy/math re-implementations of the proposal kernels (sim/refprop.py); for the GMRF block update the repository's sufficient statistics and precision matrix are inputs of the reference. A clean batch is evidence, not proof.",
+    "technique": "deterministic simulation: simulator-owned schedule/coin/seed seams inside MCMC.run, per-transition invariant monitor against a reference Metropolis-Hastings model, seeded swarm of scenes and policies",
+    "design_ref": "DESIGN.md section 3 (C15)",
+}
+
 NOT_APPLICABLE = {
     "C01": "pure function of (tree, branch lengths, model, alignment): no schedule, clock, fault, crash point or history for a simulator to own",
     "C02": "metamorphic relation between two encodings of the same input; no state, schedule or fault involved",
@@ -48,7 +57,6 @@ PENDING = {
     # claimed in DESIGN.md, check not registered yet (moved to CLAIMED once it runs clean)
     "C03": "history clause is a simulation target (DESIGN.md); check under construction, not yet registered",
     "C11": "simulation target (DESIGN.md); check under construction, not yet registered",
-    "C15": "simulation target (DESIGN.md); check under construction, not yet registered",
 }
 
 
